@@ -36,8 +36,8 @@ var resources = []resource{
 		},
 	},
 	{
-		spellings: []string{"https://b.test/", "https://b.test", "https://B.TEST:443/", "https://b.test/.", "https://b.test:443"},
-		nearMiss:  []string{"http://b.test/", "https://b.test:80/", "https://b.test:4430/", "https://b.test/%2E", "https://c.b.test/"},
+		spellings: []string{"https://b.test/", "https://b.test", "https://B.TEST:443/", "https://b.test/.", "https://b.test:443", "https://b.test/%2E"},
+		nearMiss:  []string{"http://b.test/", "https://b.test:80/", "https://b.test:4430/", "https://b.test//", "https://c.b.test/"},
 	},
 	{
 		spellings: []string{"http://[::1]:8080/v6", "http://[::1]:8080/./v6"},
@@ -142,6 +142,10 @@ func (g *G) genRandom(id string, opt randOpt) *History {
 		url := pick(g, r.spellings...)
 		if opt.nearMiss && g.chance(0.3) {
 			url = pick(g, r.nearMiss...)
+		}
+		if opt.faults && g.chance(0.04) {
+			// what url.Parse accepts without a scheme or a host: the typed-in "example.com/x", a path, a network-path reference
+			url = pick(g, "example.com/index.html", "/relative/path", "//a.test/x", "a.test", "?q=1", "mailto:user@a.test", "http:///nohost")
 		}
 		if opt.vary && g.chance(0.15) {
 			vary[ri] = pick(g, varyConfigs...) // the origin changes its Vary over time
